@@ -218,9 +218,11 @@ def gen_world(rng, profile="mixed", max_tasks=5):
         t.pop("_now", None)
     allowed0 = [rng.randrange(len(graphs))] if rng.random() < 0.15 else []
     horizon = max([t["deadline"] for t in tasks] + [now]) + 30
+    # the scheduler's own runtime as the simulator is told it: measured (-1), zero, or a fixed positive duration
+    sched_runtime = rng.choice([0, 0, -1, 3, 5, 10])
     return {"now": now, "pools": pools, "graphs": graphs, "tasks": tasks, "horizon": horizon,
             "cfg": {"enforce": enforce, "retract": retract, "release_tg": release_tg, "goal": goal,
-                    "lookahead": lookahead, "allowed0": allowed0}}
+                    "lookahead": lookahead, "allowed0": allowed0, "sched_runtime": sched_runtime}}
 
 
 def gen_dispatch_world(rng):
@@ -239,7 +241,7 @@ def gen_dispatch_world(rng):
         graphs.append({"id": 1, "nodes": [2], "edges": []})
     return {"now": now, "pools": [flat], "graphs": graphs, "tasks": tasks, "horizon": now + rt_p + 400,
             "cfg": {"enforce": True, "retract": True, "release_tg": rng.random() < 0.3, "goal": "max_goodput",
-                    "lookahead": rt_p + rng.choice([0, 10, 50]), "allowed0": []}}
+                    "lookahead": rt_p + rng.choice([0, 10, 50]), "allowed0": [], "sched_runtime": rng.choice([0, -1, 4, 8])}}
 
 
 def gen_reserve_world(rng):
@@ -525,7 +527,7 @@ def common_prelude(ctx, props_file, n_quick, n_thorough, profile="mixed", extra_
     ctx.rules.append("worlds: 1-3 task graphs (single/chain/fork/join/diamond/random DAG, <= %d tasks) whose tasks are "
                      "COMPLETED/RUNNING/SCHEDULED/RELEASED/VIRTUAL consistently with the edges, 1-3 heterogeneous workers in 1-2 "
                      "pools (capacities sometimes split over several entries of one resource name), 1-2 strategies per task, deadlines from hopeless to loose, options enforce/retract/"
-                     "release_taskgraphs/lookahead/goal drawn at random; distinct = distinct world; non-trivial = >= 2 tasks "
+                     "release_taskgraphs/lookahead/goal and the scheduler's fixed runtime (-1, 0, 3..10 us) drawn at random; distinct = distinct world; non-trivial = >= 2 tasks "
                      "decided together of which one is RUNNING or SCHEDULED or a co-decided parent" % 5)
     for w, r in zip(worlds, results):
         if "dump" in r and len(r["order"]) >= 2:
